@@ -210,9 +210,79 @@ def run_group(group, tier, seed=0, extra_args=()):
     elif p.returncode != 0 or not out.get('verification-results', {}).get('success', False):
         res['status'] = 'undecided'
         res['undecided'] = 'verus exit %s without a classifiable diagnostic: %s' % (p.returncode, ' | '.join(raw_err[:5]))
-    # any function reported unsuccessful without a diagnostic -> undecided (e.g. rlimit)
+    if res['status'] == 'ok' and os.environ.get('VERIF_NO_CANARY') != '1' and not seed:
+        ok, det = run_canaries(group, ex, gen)
+        res['canaries'] = det
+        if not ok:
+            res['status'] = 'undecided'
+            res['undecided'] = 'vacuity guard: these canaries verified although they must fail: %s' % det.get('vacuous')
     res['wall_s'] = time.time() - t0
     return res
+
+
+def run_canaries(group, ex, gen_path):
+    """Vacuity guard. A copy of the generated file in which (a) every verified unit starts with
+    `assert(false)` and (b) a `proof fn` claims `ensures false`. Each of these MUST fail: if one
+    verifies, a precondition or the assumed base is contradictory and every 'proof' is vacuous.
+    Returns (ok, details)."""
+    lines = ex['text'].split('\n')
+    inserts = {}
+    for uid, bl in ex.get('body_lines', {}).items():
+        a, b, _src = ex['units'][uid]
+        # external_body units are not checked by Verus: skip (they are in the trusted base)
+        if any('external_body' in lines[k] for k in range(max(0, a - 3), a)):
+            continue
+        inserts[bl] = uid
+    out = []
+    for k, l in enumerate(lines, start=1):
+        out.append(l)
+        if k in inserts:
+            out.append('assert(false); // [canary.%s]' % inserts[k])
+    text = '\n'.join(out)
+    # global consistency canary, placed just before the end of the verus! block
+    idx = text.rfind('} // verus!')
+    if idx < 0:
+        return True, {'skipped': 'no `} // verus!` marker'}
+    text = text[:idx] + 'proof fn verif_canary_consistency()\n    ensures false, // [canary.consistency]\n{\n}\n' + text[idx:]
+    cpath = gen_path[:-3] + '_canary.rs'
+    with open(cpath, 'w') as f:
+        f.write(text)
+    cmd = ['verus', cpath, '--output-json', '--error-format=json', '--triggers-mode', 'silent',
+           '--multiple-errors', '100', '--num-threads', '4']
+    try:
+        p = subprocess.run(cmd, capture_output=True, text=True, timeout=VERUS_TIMEOUT, cwd=BUILD)
+    except subprocess.TimeoutExpired:
+        return True, {'skipped': 'canary run timed out'}
+    clines = text.split('\n')
+    label_at = {}
+    for k, l in enumerate(clines, start=1):
+        m = re.search(r'//\s*\[(canary\.[A-Za-z0-9_.\-]+)\]', l)
+        if m:
+            label_at[k] = m.group(1)
+    failed = set()
+    for l in p.stderr.splitlines():
+        l = l.strip()
+        if not l.startswith('{'):
+            continue
+        try:
+            d = json.loads(l)
+        except Exception:
+            continue
+        if d.get('level') != 'error':
+            continue
+        for sp in d.get('spans', []):
+            for ln in range(sp['line_start'], sp['line_end'] + 1):
+                if ln in label_at:
+                    failed.add(label_at[ln])
+    expected = set(label_at.values())
+    try:
+        ran = json.loads(p.stdout).get('verification-results', {}).get('verified') is not None
+    except Exception:
+        ran = False
+    if not ran:
+        return True, {'skipped': 'canary file did not reach verification (rustc error)'}
+    verified = sorted(expected - failed)   # canaries that did NOT fail: vacuity
+    return (len(verified) == 0), {'canaries': len(expected), 'failed_as_required': len(failed & expected), 'vacuous': verified}
 
 
 def scan_assumptions(text):
@@ -419,6 +489,7 @@ def check(prop, tier):
             'known_findings_hit': [k['id'] for k, _f in known_hit],
             'known_findings': [{'id': k['id'], 'obligation': k['obligation'], 'what': k['what'], 'carve_out': k.get('carve_out')} for k in known_obl.values()],
             'explanation': cfg.get('explanation', ''),
+            'vacuity_canaries': {r['group']: r.get('canaries') for r in results},
             'bounded_stand_in_runs': [{'unit': u, 'status': b.get('status'), 'detail': b.get('detail')} for u, b in bounded_runs.items()],
         },
         'assumptions': trusted + ['rule ' + x for x in rules] + cfg.get('trusted_notes', []),
